@@ -26,7 +26,7 @@ import numpy as np
 
 from harness import circutil as cu
 from harness import tabutil as tu
-from harness.common import Driver, Result, err_class
+from harness.common import Driver, Result, err_class, impl_guard
 
 LEVEL = "proof"
 TRUSTED_BASE = [
@@ -229,8 +229,17 @@ def oracle(res, ne, np_, nc, adds, state_check=True, qiskit_check=True, key_pref
         _build = cu.build
     c = _build(ne, np_, nc, adds)
     seq, idx = cu.seq_order(c)
-    if not cu.is_linear_extension(adds, idx):
+    # cu.is_linear_extension reads the add order off the node ids; a circuit reached through mid-wire insertions ("insert-mid": node creation
+    # order != circuit order) has no such correspondence, there the same specification is checked on the DAG itself: every edge goes forward
+    if history == "insert-mid":
+        pos = {id(op): i for i, op in enumerate(c.sequence())}
+        lin_ok = all(pos[id(c.dag.nodes[u]["op"])] < pos[id(c.dag.nodes[v]["op"])] for u, v in c.dag.edges())
+    else:
+        lin_ok = cu.is_linear_extension(adds, idx)
+    if not lin_ok:
+        # trusted-base item "sequence() is a linear extension of the per-register order": it used to be a note only (exit 0)
         res.notes.append("networkx.topological_sort returned an order that is not a linear extension (library specification violated)")
+        res.exact_break("sequence:not-a-linear-extension", input=inp, impl=".".join(map(str, idx)), model="sequence() lists the operations in an order compatible with every register's order")
     text, e1 = try_call(c.to_openqasm)
     jd, e2 = try_call(c.to_json)
     out = {"c": c, "seq": seq, "idx": idx, "text": text, "json": jd, "c2": None, "c3": None, "e_text": e1, "e_json": e2, "inp": inp}
@@ -240,8 +249,13 @@ def oracle(res, ne, np_, nc, adds, state_check=True, qiskit_check=True, key_pref
     want_w = cu.wires(adds, quantum_only=True)
     # -- determinism
     c_again = _build(ne, np_, nc, adds)
-    for what, other in (("same object", c), ("deep copy", copy.deepcopy(c)), ("rebuilt circuit", c_again)):
-        t2, j2 = other.to_openqasm(), other.to_json()
+    for what, other in (("same object", lambda: c), ("deep copy", lambda: copy.deepcopy(c)), ("rebuilt circuit", lambda: c_again)):
+        try:
+            other = other()
+            t2, j2 = other.to_openqasm(), other.to_json()
+        except Exception as ex:  # noqa: BLE001 — the first export succeeded: exporting again (the same object / a copy) must not raise
+            res.violation(f"{key_prefix}export:raises", f"exporting the {what} again raised ({err_class(ex)}) after a successful export", input=inp)
+            break
         if what == "rebuilt circuit":
             # a rebuilt DAG may legitimately be sorted differently only if networkx were nondeterministic; it is not
             pass
@@ -339,8 +353,13 @@ def correspond(res, drv, batch):
             if mt != o["text"]:
                 k = next((j for j in range(min(len(mt), len(o["text"]))) if mt[j] != o["text"][j]), min(len(mt), len(o["text"])))
                 res.exact_break("to_openqasm:text", input=inp, impl=o["text"][max(0, k - 60):k + 60], model=mt[max(0, k - 60):k + 60], at=k)
-        if o["json"] is not None and enc_json(o["json"]) != rep["json"]:
-            res.exact_break("to_json", input=inp, impl=enc_json(o["json"])[:800], model=rep["json"][:800])
+        if o["json"] is not None:
+            try:
+                ej = enc_json(o["json"])
+            except Exception as ex:  # noqa: BLE001 — a dictionary without the documented fields: a different export, not a harness crash
+                ej = f"not encodable ({err_class(ex)}): {str(o['json'])[:300]}"
+            if ej != rep["json"]:
+                res.exact_break("to_json", input=inp, impl=ej[:800], model=rep["json"][:800])
         for what, cc, ee, key in (("from_openqasm", o["c2"], o.get("e_c2"), "qimp"), ("from_json", o["c3"], o.get("e_c3"), "jimp")):
             if o["text"] is None:
                 continue
@@ -410,10 +429,16 @@ def run_circuits(res, drv, specs, state_check=True, qiskit_check=True):
     batch = []
     for ne, np_, nc, adds in specs:
         n_before = len(res.violations)
-        o = oracle(res, ne, np_, nc, adds, state_check=state_check, qiskit_check=qiskit_check)
-        shrink_violation(res, n_before, ne, np_, nc, adds, state_check, qiskit_check)
+        o = None
+        # building the circuit, sequence(), compiling it and reading the re-imported circuit happen outside try_call: an exception of
+        # graphiq there is a violation on this circuit (it used to leave run() as exit 2)
+        with impl_guard(res, "roundtrip", promise=True, input={"ne": ne, "np": np_, "nc": nc, "adds": cu.enc_ops(adds)}):
+            o = oracle(res, ne, np_, nc, adds, state_check=state_check, qiskit_check=qiskit_check)
+            shrink_violation(res, n_before, ne, np_, nc, adds, state_check, qiskit_check)
         res.evaluations += 1
         classify(res, adds, ne, np_, nc)
+        if o is None:
+            continue
         batch.append(o)
         if len(batch) >= 200:
             correspond(res, drv, batch)
@@ -689,8 +714,11 @@ def run_names(res, drv, rng, n):
     reps = drv.batch(lines)
     for s, rep in zip(strs, reps):
         res.evaluations += 1
-        k = ops.name_to_class_map(s)
-        impl = "None" if k is None else k.__name__
+        try:
+            k = ops.name_to_class_map(s)
+            impl = "None" if k is None else k.__name__
+        except Exception as ex:  # noqa: BLE001 — total on strings in the model: compared as an answer, not a harness crash
+            impl = "err:" + err_class(ex)
         toks = ",".join(cu.pct_enc(x) for x in re.findall(r"sdg|.", s)) or "-"
         if rep["_status"] != "ok" or rep["cls"] != impl:
             res.exact_break("name_to_class_map", input=s, impl=impl, model=rep["_raw"][:200])
@@ -738,7 +766,8 @@ def run(ctx):
                 "classically controlled multi-line operation (resp. the importer accepted the input); distinct by the full input")
     drv = Driver()
     rng = ctx.rng
-    table_oracle(res)
+    with impl_guard(res, "tables", promise=True):
+        table_oracle(res)
     q = ctx.quick
     # 1. exhaustive small spaces
     al = small_alphabet()
@@ -767,17 +796,22 @@ def run(ctx):
                 if not adds:
                     continue
             nv = len(res.violations)
-            oracle(res, ne, np_, nc, adds, state_check=(ne + np_ <= 4), qiskit_check=True, key_prefix="history:", history=hist)
+            with impl_guard(res, "history:roundtrip", promise=True, input={"ne": ne, "np": np_, "nc": nc, "adds": cu.enc_ops(adds), "history": hist}):
+                oracle(res, ne, np_, nc, adds, state_check=(ne + np_ <= 4), qiskit_check=True, key_prefix="history:", history=hist)
             res.evaluations += 1
             res.nontrivial(("hist", hist, ne, np_, nc, cu.enc_ops(adds)))
             if len(res.violations) > nv:
                 break
     res.extra["history_built_circuits"] = res.evaluations - n0
     # 4. importers on arbitrary inputs
-    run_parser_stream(res, drv, rng, 2500 if q else 40000)
-    run_text_stream(res, drv, rng, 1500 if q else 25000)
-    run_json_stream(res, drv, rng, 1000 if q else 15000)
-    run_names(res, drv, rng, 2500 if q else 30000)
+    with impl_guard(res, "import:statements"):
+        run_parser_stream(res, drv, rng, 2500 if q else 40000)
+    with impl_guard(res, "import:edited-text"):
+        run_text_stream(res, drv, rng, 1500 if q else 25000)
+    with impl_guard(res, "import:mutated-json"):
+        run_json_stream(res, drv, rng, 1000 if q else 15000)
+    with impl_guard(res, "names"):
+        run_names(res, drv, rng, 2500 if q else 30000)
     res.extra["driver_lines"] = drv.n_lines
     drv.close()
     return res
